@@ -216,6 +216,12 @@ def run_property(pid, spec, tier, seed, scratch, logdir, a, t0):
                 else:
                     inconclusive.append((r["harness"], "SMT model could not be replayed: " + f["desc"]))
             continue
+        if len(viol_lines) >= 1:
+            # one natively reproduced violation already fails the check; further failing
+            # harnesses are listed without replay (playback costs 2-4x the verification)
+            for f in unlisted[:1]:
+                print(f"  also failing (not replayed): harness={r['harness']} {f['desc']} @ {f.get('fn','')[:80]}")
+            continue
         reps = replay_failures(pid, scratch, info, r, unlisted, logdir)
         for f, path, status in reps:
             if status is True:
@@ -285,16 +291,30 @@ def replay_failures(pid, scratch, info, r, unlisted, logdir):
             pr = kani.run(scratch, r["harness"], td, 5400, 44, (), logdir, playback=True, full=r.get("full"), only_property=f.get("id"))
             tests = pr.get("playback_tests", [])
             cands = [t for t in tests if f["desc"] in t["check"] or t["check"] in f["desc"]]
-            if not cands:
-                # fall back to an unrestricted playback run
+            no_values = pr.get("log") and "could not produce a concrete playback" in open(pr["log"]).read()
+            if not cands and not no_values and pr.get("verification") is not None and pr.get("why") is None:
+                # fall back to an unrestricted playback run (only if the restricted one ended
+                # normally: after a timeout / out-of-memory the bigger run cannot do better)
                 pr = kani.run(scratch, r["harness"], td, 5400, 44, (), logdir, playback=True, full=r.get("full"))
                 tests = pr.get("playback_tests", [])
                 cands = [t for t in tests if f["desc"] in t["check"] or t["check"] in f["desc"]]
+            if not cands and hfile and "could not produce a concrete playback" in open(pr["log"]).read():
+                # a harness whose failing path does not depend on any nondeterministic value:
+                # Kani emits no playback test; the harness itself (no concrete values) is the replay
+                short = r["harness"]
+                cands = [{
+                    "name": f"kani_concrete_playback_{short}_novalues",
+                    "check": f["desc"],
+                    "code": f"/// Replay of `{short}` (deterministic failing path, no nondeterministic values)\n#[test]\nfn kani_concrete_playback_{short}_novalues() {{\n    let concrete_vals: Vec<Vec<u8>> = vec![];\n    kani::concrete_playback_run(concrete_vals, {short});\n}}",
+                    "must_mention": f["desc"].strip('"'),
+                }]
             if not cands or not hfile:
                 out.append((f, None, None))
                 continue
             t = cands[0]
             ok, log = kani.native_replay(rcopy, hfile, t, os.path.join(CACHE, "td-native"))
+            if ok and t.get("must_mention") and t["must_mention"] not in log:
+                ok = None  # failed for another reason (e.g. ran out of concrete values)
             rid = kani.replay_id(r["harness"] + f["desc"] + t["code"])
             rp = os.path.join(VERIF, "replays", f"{pid}-{r['harness']}-{rid}.rs")
             os.makedirs(os.path.dirname(rp), exist_ok=True)
@@ -411,6 +431,7 @@ def write_evidence(pid, spec, tier, seed, results, known_hits, viol_lines, incon
                 "solver_time_s": r.get("verif_time_s"),
                 "wall_s": r.get("wall_s"),
                 **({"why": r.get("why")} if r.get("why") else {}),
+                **({"cross_check": r.get("cross_check")} if r.get("cross_check") else {}),
             }
         )
     ev = {
